@@ -9,12 +9,18 @@
 //          serving - a fresh request, then a request pair allowed + DENIED - the process alive and GET
 //          /metrics listing the keys just denied
 // (d) C15  GET /metrics at the quiescent end agrees with what the clients sent and were told
+// and: the documented gRPC schema next to the other clients on one bucket (a3), the process frozen with SIGSTOP
+// while requests are in flight (a4), deeply nested RESP frames (c0), replies in front of a rejected frame (c1),
+// 600 stalled connections per port (c2); one extra instance of a DEBUG build when $TCV_SERVER_BIN_DEBUG is set.
 // The server's --log-level is error | info | debug per instance (seed-chosen): argument formatting inside
 // `tracing::debug!` only runs at debug level.
 use crate::cmd::hostile_keys;
 use crate::metrics::{lex_sample, unescape_label};
 use crate::util::*;
-use crate::wire::{grpc_call, http_post_bytes, http_raw, http_throttle, json_body, large_keys, resp_answer, resp_command, resp_command_min, simultaneous, Logical, Ports, Proto, RespConn, WireAns};
+use crate::wire::{
+    doc_grpc_connect, doc_grpc_send, documented_schema_round, grpc_call, http_answer, http_exchange, http_post_bytes, http_raw, http_throttle, json_body, judge_documented_schema, judge_nested, large_keys, nested_frame, rejected_frames,
+    resp_answer, resp_command, resp_command_min, resp_write_read_to_end, simultaneous, Logical, Ports, Proto, RespConn, WireAns, NEST_DEPTHS,
+};
 use std::collections::BTreeMap;
 use std::process::{Child, Command, Stdio};
 use std::sync::Arc;
@@ -49,6 +55,12 @@ impl ChildGuard {
                 Err(e) => Some(format!("try_wait failed: {e}")),
             },
         }
+    }
+}
+
+impl ChildGuard {
+    fn pid(&self) -> Option<i32> {
+        self.0.as_ref().map(|c| c.id() as i32)
     }
 }
 
@@ -724,6 +736,470 @@ async fn abandoned_requests(cx: &mut Cx, inst: usize, n: usize, out: &mut Out) {
 }
 
 // ----------------------------------------------------------------------------------------
+// C15 at any quiescent point: GET /metrics against the running tally
+// ----------------------------------------------------------------------------------------
+async fn expect_counters(cx: &mut Cx, what: &str, from: usize, out: &mut Out) {
+    tokio::time::sleep(Duration::from_millis(30)).await;
+    out.bump("metrics_scrapes");
+    let Some(c) = scrape(cx).await else {
+        out.violation("C15", format!("{what}: GET /metrics failed"), cx.tail(from));
+        return;
+    };
+    let (total, http, grpc, redis, allowed, denied, errors) = (c[0], c[1], c[2], c[3], c[4], c[5], c[6]);
+    let t = cx.tally.clone();
+    let shown = format!("total {total} http {http} grpc {grpc} redis {redis} allowed {allowed} denied {denied} errors {errors}");
+    if total != http + grpc + redis || total != allowed + denied + errors {
+        out.violation("C15", format!("{what}: identities broken: {shown}"), cx.tail(from));
+    }
+    if (http, grpc, redis) != (t.http, t.grpc, t.resp) {
+        out.violation("C15", format!("{what}: per-transport counters http {http} grpc {grpc} redis {redis}, but the clients got {} / {} / {} answers that count", t.http, t.grpc, t.resp), cx.tail(from));
+    }
+    if denied != t.denied {
+        out.violation("C15", format!("{what}: requests_denied = {denied} but the clients were told allowed=false {} times", t.denied), cx.tail(from));
+    }
+    if errors != t.errors {
+        out.violation("C15", format!("{what}: requests_errors = {errors} but the clients saw {} internal errors (HTTP 500 / gRPC status)", t.errors), cx.tail(from));
+    }
+}
+
+// ----------------------------------------------------------------------------------------
+// (a3) C12 / C09: the DOCUMENTED gRPC schema next to the other clients on one bucket
+// ----------------------------------------------------------------------------------------
+async fn documented_schema(cx: &mut Cx, inst: usize, out: &mut Out) {
+    let b = cx.rng.range(4, 6);
+    let key = format!("bin{inst}_docschema");
+    let from = cx.log.len();
+    cx.log.push(format!("one bucket (fresh key {key:?}, burst {b}, 1 per 3600 s) addressed by four kinds of client in turn; GrpcDocumented = hand-written messages with the documented field numbers (response: allowed=1 limit=2 remaining=3 retry_after=4 reset_after=5)"));
+    let (answers, times) = documented_schema_round(&cx.ports, &mut cx.rng, &key, b).await;
+    for (i, (who, a, st)) in answers.iter().enumerate() {
+        cx.tally.account(who.proto(), a, *st);
+        if let WireAns::Ok(false, ..) = a {
+            *cx.denied_keys.entry(key.clone()).or_insert(0) += 1;
+        }
+        cx.log.push(format!("request {} over {who:?} -> {}", i + 1, a.show()));
+    }
+    out.bump("documented_schema_rounds");
+    for (prop, what) in judge_documented_schema(b, &answers, &times) {
+        out.violation(prop, what, cx.tail(from));
+    }
+}
+
+// ----------------------------------------------------------------------------------------
+// (a4) C09 / C15: the process is frozen (SIGSTOP) while requests are in flight
+// ----------------------------------------------------------------------------------------
+fn signal(pid: i32, sig: i32) -> bool {
+    // SAFETY: kill(2) on the pid of our own child, which the guard has not reaped yet
+    unsafe { libc::kill(pid, sig) == 0 }
+}
+
+/// delays between the release of the simultaneous requests and the SIGSTOP, in microseconds
+const FREEZE_DELAYS_US: [u64; 6] = [20_000, 5_000, 10_000, 1_000, 20_000, 150];
+const FREEZE_ROUNDS: usize = 2;
+
+/// N (8..20) simultaneous unit requests over mixed protocols on a fresh key with burst B (1..3), 1 per 3600 s, every
+/// client connected beforehand; 50 us .. 20 ms after they are released the server process is STOPPED for 400 .. 800 ms
+/// and then continued.  Meanwhile other connections keep the limiter busy with requests on other keys (all allowed),
+/// so that at the moment of the stop requests are in every stage: unread, inside a handler waiting for the limiter,
+/// answered.  A pause changes nothing about what the limiter decides: every answer that arrives is one of its decisions,
+/// exactly min(N, B) requests are admitted (C09), nobody is left without an answer (C10), the counters agree with what
+/// the clients were told (C15).
+async fn freeze(cx: &mut Cx, inst: usize, child: &mut ChildGuard, out: &mut Out) {
+    use std::sync::atomic::{AtomicBool, Ordering::SeqCst};
+    let Some(pid) = child.pid() else { return };
+    for rep in 0..FREEZE_ROUNDS {
+        let from = cx.log.len();
+        let b = cx.rng.range(1, 3);
+        let nreq = cx.rng.range(8, 20) as usize;
+        let delay_us = FREEZE_DELAYS_US[(inst * FREEZE_ROUNDS + rep) % FREEZE_DELAYS_US.len()];
+        let stop_ms = cx.rng.range(400, 800) as u64;
+        let key = format!("bin{inst}_freeze{rep}");
+        let (hp, gp, rp) = (cx.ports.http, cx.ports.grpc, cx.ports.resp);
+        // ---- background load on other keys
+        let stop = Arc::new(AtomicBool::new(false));
+        let mut flood = vec![];
+        for f in 0..48usize {
+            let stop = Arc::clone(&stop);
+            let mut r = cx.rng.fork();
+            // (two in eight carry a key of 1 MB over HTTP / 3 MB over gRPC: the limiter task spends a good part of a
+            // millisecond on each of those, so that the requests behind them really wait for it)
+            let pad = match f % 8 {
+                2 => 1_000_000,
+                3 => 3_000_000,
+                _ => 0,
+            };
+            let l = Logical { key: format!("bin{inst}_freeze{rep}_load{f}_{}", "k".repeat(pad)), b: 1_000_000, c: 1_000_000, p: 1, q: Some(1) };
+            flood.push(tokio::spawn(async move {
+                let mut got: Vec<(Proto, WireAns, u16)> = vec![];
+                match f % 8 {
+                    0 | 2 => {
+                        let req = http_post_bytes(&json_body(&mut r, &l));
+                        while !stop.load(SeqCst) {
+                            let (a, st) = match TcpStream::connect(("127.0.0.1", hp)).await {
+                                Ok(s) => http_answer(http_exchange(s, &req, Duration::from_secs(10)).await),
+                                Err(e) => (WireAns::Broken(format!("connect: {e}")), 0),
+                            };
+                            let broken = matches!(a, WireAns::Broken(_));
+                            got.push((Proto::Http, a, st));
+                            if broken {
+                                break;
+                            }
+                        }
+                    }
+                    1 | 3 => {
+                        if let Ok(mut g) = doc_grpc_connect(gp).await {
+                            while !stop.load(SeqCst) {
+                                let a = match tokio::time::timeout(Duration::from_secs(10), doc_grpc_send(&mut g, &l)).await {
+                                    Ok(a) => a,
+                                    Err(_) => WireAns::Broken("no answer within 10 s".into()),
+                                };
+                                let broken = matches!(a, WireAns::Broken(_));
+                                got.push((Proto::Grpc, a, 0));
+                                if broken {
+                                    break;
+                                }
+                            }
+                        }
+                    }
+                    _ => {
+                        if let Ok(mut c) = RespConn::open(rp).await {
+                            while !stop.load(SeqCst) {
+                                let a = resp_answer(c.call(&resp_command(&mut r, &l)).await);
+                                let broken = matches!(a, WireAns::Broken(_));
+                                got.push((Proto::Resp, a, 0));
+                                if broken {
+                                    break;
+                                }
+                            }
+                        }
+                    }
+                }
+                got
+            }));
+        }
+        tokio::time::sleep(Duration::from_millis(20)).await;
+        // ---- the simultaneous requests: connect first, then wait for the release
+        let barrier = Arc::new(tokio::sync::Barrier::new(nreq + 1));
+        let mut hs = vec![];
+        for i in 0..nreq {
+            let proto = if i < 3 { PERMS[0][i] } else { cx.rng.pick(&PERMS[0]) };
+            let l = Logical { key: key.clone(), b, c: 1, p: 3600, q: Some(1) };
+            let mut r = cx.rng.fork();
+            let bar = barrier.clone();
+            hs.push(tokio::spawn(async move {
+                let wait = Duration::from_secs(10);
+                match proto {
+                    Proto::Http => {
+                        let req = http_post_bytes(&json_body(&mut r, &l));
+                        let s = TcpStream::connect(("127.0.0.1", hp)).await;
+                        bar.wait().await;
+                        match s {
+                            Err(e) => (proto, WireAns::Broken(format!("connect: {e}")), 0),
+                            Ok(s) => {
+                                let _ = s.set_nodelay(true);
+                                let (a, st) = http_answer(http_exchange(s, &req, wait).await);
+                                (proto, a, st)
+                            }
+                        }
+                    }
+                    Proto::Grpc => {
+                        let g = doc_grpc_connect(gp).await;
+                        bar.wait().await;
+                        match g {
+                            Err(e) => (proto, WireAns::Broken(e), 0),
+                            Ok(mut g) => match tokio::time::timeout(wait, doc_grpc_send(&mut g, &l)).await {
+                                Ok(a) => (proto, a, 0),
+                                Err(_) => (proto, WireAns::Broken("timeout".into()), 0),
+                            },
+                        }
+                    }
+                    Proto::Resp => {
+                        let cmd = resp_command(&mut r, &l);
+                        let c = RespConn::open(rp).await;
+                        bar.wait().await;
+                        match c {
+                            Err(e) => (proto, WireAns::Broken(e), 0),
+                            Ok(mut c) => (proto, resp_answer(c.call(&cmd).await), 0),
+                        }
+                    }
+                }
+            }));
+        }
+        barrier.wait().await;
+        // (a busy wait: the timer wheel is far too coarse for 50 us)
+        let t0 = Instant::now();
+        while t0.elapsed() < Duration::from_micros(delay_us) {
+            std::hint::spin_loop();
+        }
+        let stopped = signal(pid, libc::SIGSTOP);
+        tokio::time::sleep(Duration::from_millis(stop_ms)).await;
+        let continued = signal(pid, libc::SIGCONT);
+        let (mut admitted, mut denied, mut unanswered) = (0i64, 0i64, 0i64);
+        let mut answers = vec![];
+        for h in hs {
+            let (proto, a, st) = match h.await {
+                Ok(x) => x,
+                Err(e) => (Proto::Http, WireAns::Broken(format!("client task failed: {e}")), 0),
+            };
+            cx.tally.account(proto, &a, st);
+            match &a {
+                WireAns::Ok(true, ..) => admitted += 1,
+                WireAns::Ok(false, ..) => {
+                    denied += 1;
+                    *cx.denied_keys.entry(key.clone()).or_insert(0) += 1;
+                }
+                _ => unanswered += 1,
+            }
+            answers.push(format!("{proto:?}:{}", a.show()));
+        }
+        stop.store(true, SeqCst);
+        let mut load = [0u64; 3];
+        let mut load_bad: Vec<String> = vec![];
+        for t in flood {
+            for (proto, a, st) in t.await.unwrap_or_default() {
+                cx.tally.account(proto, &a, st);
+                load[proto as usize] += 1;
+                if !matches!(a, WireAns::Ok(true, ..)) && load_bad.len() < 5 {
+                    load_bad.push(format!("{proto:?}:{}", a.show()));
+                }
+            }
+        }
+        cx.log.push(format!(
+            "{nreq} simultaneous unit requests on fresh key {key:?}, burst {b}, 1 per 3600 s, every client connected beforehand; {delay_us} us after their release SIGSTOP to the server ({}), SIGCONT {stop_ms} ms later ({}); meanwhile {} HTTP / {} gRPC / {} RESP requests on other keys (burst 1000000) were answered on 48 other connections{}: {}",
+            if stopped { "delivered" } else { "FAILED" },
+            if continued { "delivered" } else { "FAILED" },
+            load[0],
+            load[1],
+            load[2],
+            if load_bad.is_empty() { String::new() } else { format!(", not all of them allowed ({})", load_bad.join(" ")) },
+            answers.join(" ")
+        ));
+        out.bump("freeze_rounds");
+        if std::env::var("TCV_DEBUG").is_ok() {
+            let buf = cx.launch.split("--buffer-size ").nth(1).and_then(|x| x.split(' ').next()).unwrap_or("?").to_string();
+            eprintln!("freeze inst {inst} rep {rep} buffer {buf} delay {delay_us} us stop {stop_ms} ms nreq {nreq} burst {b} admitted {admitted} denied {denied} unanswered {unanswered} load {load:?} http-in-race {}", answers.iter().filter(|a| a.starts_with("Http")).count());
+        }
+        out.add("freeze_background_requests", load.iter().sum());
+        let want = (nreq as i64).min(b);
+        if unanswered > 0 {
+            out.violation("C10", format!("the server process was stopped for {stop_ms} ms and continued: {unanswered} of {nreq} simultaneous requests got no answer at all within 10 s"), cx.tail(from));
+        }
+        if admitted > want || (unanswered == 0 && admitted != want) {
+            out.violation(
+                "C09",
+                format!("{nreq} simultaneous unit requests over mixed protocols on a fresh key, burst {b}, 1 per 3600 s, the server process being stopped (SIGSTOP) for {stop_ms} ms {delay_us} us after their release: {admitted} allowed, {denied} denied, {unanswered} unanswered; one limiter admits exactly {want} whenever it gets to run"),
+                cx.tail(from),
+            );
+        }
+        if !load_bad.is_empty() {
+            out.violation("C09", format!("requests on other keys (burst 1000000, 1000000 per second) in flight while the server was stopped for {stop_ms} ms were not all allowed: {}", load_bad.join(" ")), cx.tail(from));
+        }
+        expect_counters(cx, &format!("after a pause of {stop_ms} ms (SIGSTOP / SIGCONT) with requests in flight"), from, out).await;
+        if let Some(st) = child.exited() {
+            out.violation("C11", format!("the server process is gone after SIGSTOP / SIGCONT ({st})"), cx.tail(from));
+            return;
+        }
+    }
+}
+
+// ----------------------------------------------------------------------------------------
+// (c0) C13 / C11: deeply nested RESP frames
+// ----------------------------------------------------------------------------------------
+/// false = the server process is gone
+async fn nested_frames(cx: &mut Cx, child: &mut ChildGuard, out: &mut Out) -> bool {
+    let from = cx.log.len();
+    for depth in NEST_DEPTHS {
+        let frame = nested_frame(depth);
+        cx.log.push(format!("new RESP connection; {depth} x `*1` + `:1` ({} bytes), then PING", frame.len()));
+        let (reply, ping) = match RespConn::open(cx.ports.resp).await {
+            Err(e) => (Err(e), None),
+            Ok(mut c) => {
+                let r = cx.resp_raw(&mut c, &frame).await;
+                let ping = if r.is_ok() { Some(cx.resp_raw(&mut c, b"*1\r\n$4\r\nPING\r\n").await) } else { None };
+                (r, ping)
+            }
+        };
+        out.bump("nested_frames");
+        if let Some(what) = judge_nested(depth, &reply, &ping) {
+            let mut replay = cx.tail(from);
+            replay.push(crate::resp::rdec_line(&frame));
+            out.violation("C13", what, replay);
+        }
+        tokio::time::sleep(Duration::from_millis(10)).await;
+        if let Some(st) = child.exited() {
+            out.violation("C11", format!("the server process is gone after a RESP frame nested {depth} deep ({st})"), cx.tail(from));
+            return false;
+        }
+    }
+    true
+}
+
+// ----------------------------------------------------------------------------------------
+// (c1) C10 / C15: commands in front of a frame the decoder rejects, all in one write
+// ----------------------------------------------------------------------------------------
+async fn replies_before_rejected_frame(cx: &mut Cx, inst: usize, out: &mut Out) {
+    for (fi, (what, bad)) in rejected_frames().into_iter().enumerate() {
+        if crate::resp::dec(&bad) != crate::resp::Dec::Error {
+            out.bump("rejected_frames_the_decoder_does_not_reject");
+            continue;
+        }
+        let from = cx.log.len();
+        let k = cx.rng.range(3, 6);
+        let b = cx.rng.range(1, k - 1);
+        let l = Logical { key: format!("bin{inst}_pipe{fi}"), b, c: 1, p: 3600, q: Some(1) };
+        let mut bytes = vec![];
+        for _ in 0..k {
+            bytes.extend(resp_command(&mut cx.rng, &l));
+        }
+        bytes.extend_from_slice(&bad);
+        let before = scrape(cx).await;
+        let r = resp_write_read_to_end(cx.ports.resp, &bytes, Duration::from_secs(3)).await;
+        tokio::time::sleep(Duration::from_millis(30)).await;
+        let after = scrape(cx).await;
+        out.bump("pipelines_before_a_rejected_frame");
+        cx.tally.sent_resp += k as u64;
+        let (replies, closed, rest) = match r {
+            Ok(x) => x,
+            Err(e) => {
+                out.violation("C11", format!("cannot open a RESP connection: {e}"), cx.tail(from));
+                continue;
+            }
+        };
+        let answers: Vec<WireAns> = replies.into_iter().map(|v| resp_answer(Ok(v))).collect();
+        let mut got_denied = 0u64;
+        for a in &answers {
+            // what the client was told is what the counters must show
+            cx.tally.resp += 1;
+            match a {
+                WireAns::Ok(true, ..) => cx.tally.ans_allowed += 1,
+                WireAns::Ok(false, ..) => {
+                    got_denied += 1;
+                    cx.tally.ans_denied += 1;
+                    cx.tally.denied += 1;
+                    *cx.denied_keys.entry(l.key.clone()).or_insert(0) += 1;
+                }
+                _ => cx.tally.ans_error += 1,
+            }
+        }
+        cx.log.push(format!(
+            "new RESP connection, ONE write: {k} x THROTTLE {} {b} 1 3600 1, then {what} ({}) -> {} replies [{}], connection closed by the server: {closed}, {rest} more bytes that are no complete reply",
+            l.key,
+            printable(&bad),
+            answers.len(),
+            answers.iter().map(|a| a.show()).collect::<Vec<_>>().join(" ")
+        ));
+        if answers.len() as i64 != k {
+            out.violation("C10", format!("{k} complete THROTTLE commands followed by {what} in one write: {} replies arrived before the server closed the connection", answers.len()), cx.tail(from));
+        }
+        if let (Some(b4), Some(af)) = (before, after) {
+            let (d_redis, d_allowed, d_denied) = (af[3] - b4[3], af[4] - b4[4], af[5] - b4[5]);
+            if d_redis != answers.len() as u64 || d_denied != got_denied {
+                out.violation(
+                    "C15",
+                    format!("{k} THROTTLE commands followed by {what} in one write: GET /metrics moved by redis +{d_redis} (allowed +{d_allowed}, denied +{d_denied}) but the client received {} replies, {got_denied} of them denials - what was counted is not what clients were told", answers.len()),
+                    cx.tail(from),
+                );
+            }
+        }
+        for (i, a) in answers.iter().enumerate() {
+            let i = i as i64;
+            let good = if i < b { matches!(a, WireAns::Ok(true, lim, rem, _, 0) if *lim == b && *rem == b - 1 - i) } else { matches!(a, WireAns::Ok(false, lim, 0, _, _) if *lim == b) };
+            if !good {
+                out.violation("C12", format!("reply {} of a pipeline of {k} unit requests on a fresh key, burst {b}: {}, want ok,{},{b},{},_,_", i + 1, a.show(), (i < b) as u8, (b - 1 - i).max(0)), cx.tail(from));
+                break;
+            }
+        }
+    }
+}
+
+// ----------------------------------------------------------------------------------------
+// (c2) C11: stalled clients
+// ----------------------------------------------------------------------------------------
+/// 600 connections per port that sent the beginning of a request and then stay open without another byte; requests
+/// on NEW connections of every protocol, GET /health and GET /metrics are served as if they were not there
+async fn stalled_clients(cx: &mut Cx, inst: usize, child: &mut ChildGuard, out: &mut Out) {
+    let from = cx.log.len();
+    let t_open = Instant::now();
+    let st = crate::net::open_stalled(cx.ports.http, cx.ports.grpc, cx.ports.resp, 600).await;
+    out.add("ms_stalled_open", t_open.elapsed().as_millis() as u64);
+    tokio::time::sleep(Duration::from_millis(50)).await;
+    out.add("stalled_connections", st.open.iter().sum::<usize>() as u64);
+    let what = format!("{} + {} + {} stalled connections open (HTTP: complete head with Content-Length and half of the body; gRPC: HTTP/2 preface, SETTINGS and part of a HEADERS frame; RESP: array header and half of a bulk string)", st.open[0], st.open[1], st.open[2]);
+    cx.log.push(what.clone());
+    cx.resp_conn = None;
+    for proto in [Proto::Http, Proto::Grpc, Proto::Resp] {
+        let b = cx.rng.range(2, 6);
+        let l = Logical { key: format!("bin{inst}_stallprobe_{proto:?}"), b, c: 1, p: 3600, q: Some(1) };
+        if proto == Proto::Resp {
+            cx.resp_conn = None;
+        }
+        let a = cx.send(proto, &l).await;
+        out.bump("probes");
+        if !matches!(a, WireAns::Ok(true, lim, rem, _, _) if lim == b && rem == b - 1) {
+            out.violation("C11", format!("with {what}, a fresh request (burst {b}) on a new {proto:?} connection was answered {}, want ok,1,{b},{},_,_", a.show(), b - 1), cx.tail(from));
+        }
+    }
+    for path in ["/health", "/metrics"] {
+        let r = http_raw(cx.ports.http, format!("GET {path} HTTP/1.1\r\nHost: x\r\nConnection: close\r\n\r\n").as_bytes()).await;
+        let status = r.map(|x| x.0);
+        cx.log.push(format!("GET {path} -> {status:?}"));
+        if status != Ok(200) {
+            out.violation("C11", format!("with {what}, GET {path} on a new connection gives {status:?}"), cx.tail(from));
+        }
+    }
+    out.add("stalled_connections_closed_by_the_server", st.closed_by_server() as u64);
+    st.close();
+    cx.resp_conn = None;
+    tokio::time::sleep(Duration::from_millis(100)).await;
+    if let Some(st) = child.exited() {
+        out.violation("C11", format!("the server process is gone after the stalled connections ({st})"), cx.tail(from));
+    }
+}
+
+// ----------------------------------------------------------------------------------------
+/// probes on NEW connections of each protocol: a fresh request, then a request pair allowed + DENIED; the process is
+/// still running.  Returns the keys of the denial probes.
+async fn probes(cx: &mut Cx, inst: usize, from: usize, child: &mut ChildGuard, out: &mut Out) -> Vec<String> {
+    cx.resp_conn = None;
+    for proto in [Proto::Http, Proto::Grpc, Proto::Resp] {
+        let b = cx.rng.range(2, 6);
+        let l = Logical { key: format!("bin{inst}_probe_{proto:?}"), b, c: 1, p: 3600, q: Some(1) };
+        if proto == Proto::Resp {
+            cx.resp_conn = None;
+        }
+        let a = cx.send(proto, &l).await;
+        out.bump("probes");
+        if !matches!(a, WireAns::Ok(true, lim, rem, _, _) if lim == b && rem == b - 1) {
+            out.violation("C11", format!("after hostile traffic a fresh request (burst {b}) on a new {proto:?} connection was answered {}, want ok,1,{b},{},_,_", a.show(), b - 1), cx.tail(from));
+        }
+    }
+    // the probe that includes a DENIAL, again on new connections: fresh key, burst 1 -> allowed with nothing
+    // remaining, then denied; both must be answered
+    let mut probe_keys = vec![];
+    for proto in [Proto::Http, Proto::Grpc, Proto::Resp] {
+        let key = format!("bin{inst}_dprobe_{proto:?}");
+        cx.resp_conn = None;
+        for half in 0..2 {
+            let l = Logical { key: key.clone(), b: 1, c: 1, p: 3600, q: Some(1) };
+            let a = cx.send(proto, &l).await;
+            out.bump("probes_with_denial");
+            let good = if half == 0 { matches!(a, WireAns::Ok(true, 1, 0, _, _)) } else { matches!(a, WireAns::Ok(false, 1, 0, _, rt) if rt >= 0) };
+            if !good {
+                out.violation(
+                    "C11",
+                    format!("after hostile traffic, request {} of the denial probe (fresh key, burst 1, 1 per 3600 s) on a new {proto:?} connection was answered {}, want {}", half + 1, a.show(), if half == 0 { "ok,1,1,0,_,_" } else { "ok,0,1,0,_,>=0" }),
+                    cx.tail(from),
+                );
+            }
+        }
+        probe_keys.push(key);
+    }
+    if let Some(st) = child.exited() {
+        out.violation("C11", format!("the server process is gone after the hostile traffic ({st})"), cx.tail(from));
+    }
+    probe_keys
+}
+
+// ----------------------------------------------------------------------------------------
 // (c) C11
 // ----------------------------------------------------------------------------------------
 async fn no_poison(cx: &mut Cx, inst: usize, max_denied: u64, verbose_log: bool, n: usize, child: &mut ChildGuard, out: &mut Out) {
@@ -740,6 +1216,32 @@ async fn no_poison(cx: &mut Cx, inst: usize, max_denied: u64, verbose_log: bool,
             out.bump("hostile_requests");
             if let WireAns::Broken(e) = &a {
                 out.violation("C11", format!("hostile request ({}) got no answer at all on {proto:?}: {e}", describe(&l)), cx.tail(from));
+            }
+        }
+    }
+    // the hostile numeric lattice one field at a time (`cmd::extreme_requests`: 2^31, 2^32, 2^33, 3 x 2^32, 2^53, 2^63-1, ...
+    // in each of max_burst, count_per_period, period, quantity, the other fields valid and small, plus all-extreme
+    // combinations) over RESP and HTTP, and over gRPC the values an int32 carries: each is answered by the limiter
+    'sweep: for proto in PERMS[(inst + 3) % 6] {
+        for (field, b, c, p, q) in crate::cmd::extreme_requests() {
+            let l = Logical { key: format!("bin{inst}_x_{proto:?}_{field}"), b, c, p, q: Some(q) };
+            if proto == Proto::Grpc && !crate::wire::fits_i32(&l) {
+                continue;
+            }
+            let a = cx.send(proto, &l).await;
+            out.bump("extreme_number_requests");
+            let gone = matches!(&a, WireAns::Err(e) if e.contains("has shut down") || e.contains("dropped response channel"));
+            if gone || matches!(a, WireAns::Broken(_)) {
+                let txt = match &a {
+                    WireAns::Err(e) => e.chars().take(160).collect::<String>(),
+                    a => a.show(),
+                };
+                out.violation(
+                    "C11",
+                    format!("a well-formed request with positive numbers ({}: {field} extreme) over {proto:?} was answered {txt:?} - {}", describe(&l), if gone { "the limiter no longer serves" } else { "no answer at all" }),
+                    cx.tail(cx.log.len().saturating_sub(4)),
+                );
+                break 'sweep;
             }
         }
     }
@@ -856,6 +1358,12 @@ async fn no_poison(cx: &mut Cx, inst: usize, max_denied: u64, verbose_log: bool,
             }
         }
     }
+    // deeply nested frames (C13; a dead process: C11), then commands in front of a rejected frame in one write (C10 / C15)
+    if !nested_frames(cx, child, out).await {
+        return;
+    }
+    replies_before_rejected_frame(cx, inst, out).await;
+    expect_counters(cx, "after the RESP pipelines that end in a rejected frame", from, out).await;
     // 70 KB RESP line without CRLF on a connection of its own
     if let Ok(mut s) = TcpStream::connect(("127.0.0.1", cx.ports.resp)).await {
         let mut g = vec![b'+'];
@@ -899,44 +1407,7 @@ async fn no_poison(cx: &mut Cx, inst: usize, max_denied: u64, verbose_log: bool,
         cx.log.push(format!("abort storm on the {name} port: {} connections reset right after connect, {} of them after writing an incomplete request", st.connected, st.with_data));
     }
     tokio::time::sleep(Duration::from_millis(50)).await;
-    // probes on NEW connections of each protocol
-    cx.resp_conn = None;
-    for proto in [Proto::Http, Proto::Grpc, Proto::Resp] {
-        let b = cx.rng.range(2, 6);
-        let l = Logical { key: format!("bin{inst}_probe_{proto:?}"), b, c: 1, p: 3600, q: Some(1) };
-        if proto == Proto::Resp {
-            cx.resp_conn = None;
-        }
-        let a = cx.send(proto, &l).await;
-        out.bump("probes");
-        if !matches!(a, WireAns::Ok(true, lim, rem, _, _) if lim == b && rem == b - 1) {
-            out.violation("C11", format!("after hostile traffic a fresh request (burst {b}) on a new {proto:?} connection was answered {}, want ok,1,{b},{},_,_", a.show(), b - 1), cx.tail(from));
-        }
-    }
-    // the probe that includes a DENIAL, again on new connections: fresh key, burst 1 -> allowed with nothing
-    // remaining, then denied; both must be answered
-    let mut probe_keys = vec![];
-    for proto in [Proto::Http, Proto::Grpc, Proto::Resp] {
-        let key = format!("bin{inst}_dprobe_{proto:?}");
-        cx.resp_conn = None;
-        for half in 0..2 {
-            let l = Logical { key: key.clone(), b: 1, c: 1, p: 3600, q: Some(1) };
-            let a = cx.send(proto, &l).await;
-            out.bump("probes_with_denial");
-            let good = if half == 0 { matches!(a, WireAns::Ok(true, 1, 0, _, _)) } else { matches!(a, WireAns::Ok(false, 1, 0, _, rt) if rt >= 0) };
-            if !good {
-                out.violation(
-                    "C11",
-                    format!("after hostile traffic, request {} of the denial probe (fresh key, burst 1, 1 per 3600 s) on a new {proto:?} connection was answered {}, want {}", half + 1, a.show(), if half == 0 { "ok,1,1,0,_,_" } else { "ok,0,1,0,_,>=0" }),
-                    cx.tail(from),
-                );
-            }
-        }
-        probe_keys.push(key);
-    }
-    if let Some(st) = child.exited() {
-        out.violation("C11", format!("the server process is gone after the hostile traffic ({st})"), cx.tail(from));
-    }
+    let probe_keys = probes(cx, inst, from, child, out).await;
     // GET /metrics still answers and, with tracking enabled, lists the keys denied a moment ago.  A key is
     // certain to be listed when no more than --max-denied-keys distinct keys (of <= 256 bytes) were denied at
     // all: the table never evicts then and the report shows all of it.
@@ -1112,83 +1583,129 @@ fn plan_instances(rng: &mut Rng, instances: usize) -> Vec<Plan> {
     plans
 }
 
-async fn instance(inst: usize, bin: &str, plan: &Plan, with_slow_reader: bool, n: usize, rng: &mut Rng, out: &mut Out) {
-    let ports = free_ports();
-    let Plan { store, buffer, max_denied, log_level } = plan.clone();
-    let descr = format!("instance {inst} store {store} buffer-size {buffer} max-denied-keys {max_denied} log-level {log_level}");
-    let args: Vec<String> = [
-        "--http", "--http-host", "127.0.0.1", "--http-port", &ports.http.to_string(),
-        "--grpc", "--grpc-host", "127.0.0.1", "--grpc-port", &ports.grpc.to_string(),
-        "--redis", "--redis-host", "127.0.0.1", "--redis-port", &ports.resp.to_string(),
-        "--store", store, "--buffer-size", &buffer.to_string(), "--max-denied-keys", &max_denied.to_string(),
-        "--log-level", log_level,
-    ]
-    .iter()
-    .map(|s| s.to_string())
-    .collect();
-    let launch = format!("{bin} {}", args.join(" "));
-    let mut cmd = Command::new(bin);
-    cmd.args(&args).stdin(Stdio::null()).stdout(Stdio::null()).stderr(Stdio::null());
-    // the configuration comes from the command line only
-    for (k, _) in std::env::vars_os() {
-        let ks = k.to_string_lossy();
-        if ks.starts_with("THROTTLECRAB_") || ks == "RUST_LOG" {
-            cmd.env_remove(&k);
+/// Start the server binary with all three transports on free loopback ports plus `extra` arguments and wait (10 s)
+/// until the three ports accept.  When the process ends during start-up or a port does not come up - some other
+/// process may have taken a port between our look-up and the server's bind - it is started again on new ports, three
+/// times in all; only then `C09 binary did not start` is reported.
+async fn launch(bin: &str, extra: &[&str], out: &mut Out) -> Option<(ChildGuard, Ports, String)> {
+    let mut last = String::new();
+    for _attempt in 0..3 {
+        let ports = free_ports();
+        let mut args: Vec<String> = [
+            "--http", "--http-host", "127.0.0.1", "--http-port", &ports.http.to_string(),
+            "--grpc", "--grpc-host", "127.0.0.1", "--grpc-port", &ports.grpc.to_string(),
+            "--redis", "--redis-host", "127.0.0.1", "--redis-port", &ports.resp.to_string(),
+        ]
+        .iter()
+        .map(|s| s.to_string())
+        .collect();
+        args.extend(extra.iter().map(|s| s.to_string()));
+        let launch = format!("{bin} {}", args.join(" "));
+        let mut cmd = Command::new(bin);
+        cmd.args(&args).stdin(Stdio::null()).stdout(Stdio::null()).stderr(Stdio::null());
+        // the configuration comes from the command line only
+        for (k, _) in std::env::vars_os() {
+            let ks = k.to_string_lossy();
+            if ks.starts_with("THROTTLECRAB_") || ks == "RUST_LOG" {
+                cmd.env_remove(&k);
+            }
+        }
+        let mut child = match cmd.spawn() {
+            Ok(c) => ChildGuard(Some(c)),
+            Err(e) => {
+                out.violation("C09", format!("binary did not start: spawn failed: {e}"), vec![format!("# {launch}")]);
+                return None;
+            }
+        };
+        // all three ports must accept connections within 10 s
+        let deadline = Instant::now() + Duration::from_secs(10);
+        let mut up = [false; 3];
+        let failed = loop {
+            for (i, p) in [ports.http, ports.grpc, ports.resp].into_iter().enumerate() {
+                if !up[i] {
+                    if let Ok(s) = TcpStream::connect(("127.0.0.1", p)).await {
+                        drop(s);
+                        up[i] = true;
+                    }
+                }
+            }
+            if let Some(st) = child.exited() {
+                break Some(format!("binary did not start: the process ended during start-up ({st})"));
+            }
+            if up.iter().all(|x| *x) {
+                break None;
+            }
+            if Instant::now() >= deadline {
+                break Some(format!("binary did not start: ports accepting after 10 s (http, grpc, redis): {up:?}"));
+            }
+            tokio::time::sleep(Duration::from_millis(10)).await;
+        };
+        match failed {
+            None => {
+                // the probe connections carry no request and count for nothing
+                tokio::time::sleep(Duration::from_millis(20)).await;
+                if let Some(st) = child.exited() {
+                    last = format!("binary did not start: the process ended during start-up ({st})\n# {launch}");
+                    out.bump("launch_retries");
+                    continue;
+                }
+                return Some((child, ports, launch));
+            }
+            Some(why) => {
+                last = format!("{why}\n# {launch}");
+                out.bump("launch_retries");
+            }
         }
     }
-    let mut child = match cmd.spawn() {
-        Ok(c) => ChildGuard(Some(c)),
-        Err(e) => {
-            out.violation("C09", format!("binary did not start: spawn failed: {e}"), vec![format!("# {launch}")]);
-            return;
-        }
+    let (why, launch) = last.split_once('\n').unwrap_or((&last, ""));
+    out.violation("C09", format!("{why} (3 attempts on different ports)"), vec![launch.to_string()]);
+    None
+}
+
+async fn instance(inst: usize, bin: &str, plan: &Plan, with_slow_reader: bool, n: usize, rng: &mut Rng, out: &mut Out) {
+    let Plan { store, buffer, max_denied, log_level } = plan.clone();
+    let descr = format!("instance {inst} store {store} buffer-size {buffer} max-denied-keys {max_denied} log-level {log_level}");
+    let (buffer_s, max_denied_s) = (buffer.to_string(), max_denied.to_string());
+    let Some((mut child, ports, launch)) = launch(bin, &["--store", store, "--buffer-size", &buffer_s, "--max-denied-keys", &max_denied_s, "--log-level", log_level], out).await else {
+        return;
     };
     out.bump("instances");
     out.bump(&format!("store_{store}"));
     out.bump(&format!("log_level_{log_level}"));
-    // all three ports must accept connections within 10 s
-    let deadline = Instant::now() + Duration::from_secs(10);
-    let mut up = [false; 3];
-    loop {
-        for (i, p) in [ports.http, ports.grpc, ports.resp].into_iter().enumerate() {
-            if !up[i] {
-                if let Ok(s) = TcpStream::connect(("127.0.0.1", p)).await {
-                    drop(s);
-                    up[i] = true;
-                }
-            }
-        }
-        if up.iter().all(|x| *x) {
-            break;
-        }
-        if let Some(st) = child.exited() {
-            out.violation("C09", format!("binary did not start: the process ended during start-up ({st})"), vec![format!("# {launch}")]);
-            return;
-        }
-        if Instant::now() >= deadline {
-            out.violation("C09", format!("binary did not start: ports accepting after 10 s (http, grpc, redis): {up:?}"), vec![format!("# {launch}")]);
-            return;
-        }
-        tokio::time::sleep(Duration::from_millis(10)).await;
-    }
-    // the probe connections carry no request and count for nothing
-    tokio::time::sleep(Duration::from_millis(20)).await;
     out.sample(format!("launched: {launch}"));
     let mut cx = Cx { ports, rng: rng.fork(), tally: Tally::default(), log: vec![], resp_conn: None, launch, denied_keys: BTreeMap::new() };
+    let t0 = Instant::now();
+    let mut phase_t = Instant::now();
+    let mut phase = |out: &mut Out, name: &str| {
+        out.add(&format!("ms_{name}"), phase_t.elapsed().as_millis() as u64);
+        phase_t = Instant::now();
+    };
 
     shared_limiter(&mut cx, inst, out).await;
     key_families(&mut cx, inst, out).await;
+    documented_schema(&mut cx, inst, out).await;
     same_answers(&mut cx, inst, out).await;
+    phase(out, "shared_limiter_families_same_answers");
     large_requests(&mut cx, inst, out).await;
     if with_slow_reader {
         slow_reader(&mut cx, inst, out).await;
     }
+    phase(out, "large_requests_slow_reader");
+    freeze(&mut cx, inst, &mut child, out).await;
+    phase(out, "freeze");
     no_poison(&mut cx, inst, max_denied, log_level == "debug" || log_level == "trace", n, &mut child, out).await;
-    check_metrics(&mut cx, inst, max_denied, out).await;
-    abandoned_requests(&mut cx, inst, n, out).await;
+    phase(out, "no_poison");
+    if child.exited().is_none() {
+        stalled_clients(&mut cx, inst, &mut child, out).await;
+        phase(out, "stalled_clients");
+        check_metrics(&mut cx, inst, max_denied, out).await;
+        abandoned_requests(&mut cx, inst, n, out).await;
+        phase(out, "metrics_abandoned");
+    }
     if let Some(st) = child.exited() {
         out.violation("C11", format!("the server process ended by itself ({st})"), cx.tail(cx.log.len().saturating_sub(20)));
     }
+    out.add("ms_instances", t0.elapsed().as_millis() as u64);
 
     let t = &cx.tally;
     out.add("requests_http", t.sent_http);
@@ -1202,6 +1719,25 @@ async fn instance(inst: usize, bin: &str, plan: &Plan, with_slow_reader: bool, n
     out.note_case(&note);
     out.line(note.clone(), note);
     // `child` dropped here: kill + wait
+}
+
+/// ONE extra instance against a DEBUG build of the server (`$TCV_SERVER_BIN_DEBUG`; default log level, periodic store):
+/// the nested-frame traffic and the probes only.  What a nesting level costs on the stack depends on the build; the
+/// other checks run the release binary.
+async fn debug_instance(bin: &str, rng: &mut Rng, out: &mut Out) {
+    let Some((mut child, ports, launch)) = launch(bin, &["--store", "periodic"], out).await else {
+        return;
+    };
+    out.bump("debug_build_instances");
+    let mut cx = Cx { ports, rng: rng.fork(), tally: Tally::default(), log: vec![], resp_conn: None, launch, denied_keys: BTreeMap::new() };
+    let inst = 900;
+    if nested_frames(&mut cx, &mut child, out).await {
+        probes(&mut cx, inst, 0, &mut child, out).await;
+        expect_counters(&mut cx, "debug build, after the nested frames and the probes", 0, out).await;
+    }
+    let t = &cx.tally;
+    let note = format!("note binary debug-build instance store periodic log-level default requests http {} grpc {} resp {}", t.sent_http, t.sent_grpc, t.sent_resp);
+    out.line(note.clone(), note);
 }
 
 pub fn run(seed: u64, n: usize, out: &mut Out) {
@@ -1222,6 +1758,12 @@ pub fn run(seed: u64, n: usize, out: &mut Out) {
         for (inst, plan) in plans.iter().enumerate() {
             instance(inst, &bin, plan, slow_at.contains(&inst), n, &mut rng, out).await;
         }
+        if let Ok(dbg) = std::env::var("TCV_SERVER_BIN_DEBUG") {
+            if std::path::Path::new(&dbg).is_file() {
+                debug_instance(&dbg, &mut rng, out).await;
+            }
+        }
+        out.add("grpc_calls_with_the_documented_schema", crate::wire::GRPC_DOC_CALLS.load(std::sync::atomic::Ordering::Relaxed));
     });
     rt.shutdown_background();
 }
